@@ -15,7 +15,7 @@ pub struct C15;
 
 fn n_cases(tier: Tier) -> u64 {
     match tier {
-        Tier::Quick => 6_000,
+        Tier::Quick => 10_000,
         Tier::Thorough => 150_000,
     }
 }
